@@ -40,10 +40,10 @@ CORE = "onnx_ir._core"
 # (regex on "Origin.local: condition", regex on the via-chain or None, reason)
 INFEASIBLE = [
     {"guard": '^_LinkBox\\.erase: self\\.value is None', "via": None, "why": 'erase() is only called by DoublyLinkedSet.remove on a box taken from the id→box map, which holds live boxes only (C11-R3)', "requires": ()},
-    {"guard": '^DoublyLinkedSet\\.remove: key of `del self\\._value_ids_to_boxes\\[value_id\\]` absent', "via": None, "why": 'dominated by the `value_id not in self._value_ids_to_boxes` rejection in the same function', "requires": ()},
+    {"guard": '^DoublyLinkedSet\\.remove: key of `del self\\._value_ids_to_boxes\\[\\$\\d+\\]` absent', "via": None, "why": 'dominated by the `value_id not in self._value_ids_to_boxes` rejection in the same function', "requires": ()},
     {"guard": '^DoublyLinkedSet\\._insert_one_after: box\\.owning_list is not self', "via": None, "why": "box is self._root(.prev) or a box from self's own map in every caller (C11-R3 insertion entry points)", "requires": ()},
-    {"guard": '^DoublyLinkedSet\\.remove: \\(value_id := id\\(value\\)\\) not in self\\._value_ids_to_boxes', "via": 'DoublyLinkedSet\\._insert_one_after', "why": 'the call in _insert_one_after is guarded by `id in self._value_ids_to_boxes`', "requires": ()},
-    {"guard": '^DoublyLinkedSet\\.remove: \\(value_id := id\\(value\\)\\) not in self\\._value_ids_to_boxes', "via": '^onnx_ir\\._core:Graph\\.remove$|Graph\\.remove,', "why": 'Graph.remove validated `node.graph is self` for every node before unlinking; a node names a graph iff it is in its list (C01-R3b)', "requires": ('node.graph is not self',)},
+    {"guard": '^DoublyLinkedSet\\.remove: \\(\\$\\d+ := id\\(value\\)\\) not in self\\._value_ids_to_boxes', "via": 'DoublyLinkedSet\\._insert_one_after', "why": 'the call in _insert_one_after is guarded by `id in self._value_ids_to_boxes`', "requires": ()},
+    {"guard": '^DoublyLinkedSet\\.remove: \\(\\$\\d+ := id\\(value\\)\\) not in self\\._value_ids_to_boxes', "via": '^onnx_ir\\._core:Graph\\.remove$|Graph\\.remove,', "why": 'Graph.remove validated `node.graph is self` for every node before unlinking; a node names a graph iff it is in its list (C01-R3b)', "requires": ('(node|\\$\\d+)\\.graph is not self',)},
     {"guard": '^DoublyLinkedSet\\._insert_one_after: new_value is None', "via": None, "why": 'every Graph-level caller dereferences the node (node.graph) in _set_node_graph_to_self_and_assign_names first', "requires": ()},
     {"guard": '^Value\\._remove_usage: `self\\._uses\\.pop\\(Usage\\(use, index\\)\\)`: key absent', "via": None, "why": 'a use (node, i) is registered for every non-None input slot (C01-R3a), and the caller checked old_input is not None', "requires": ()},
     {"guard": '^Node\\.replace_input_with: index < 0 or index >= len\\(self\\.inputs\\)', "via": 'Graph\\.remove|Node\\.resize_inputs|Value\\.replace_all_uses_with', "why": 'the index is drawn from range(len(node.inputs)) / from value.uses(), which are in range for their node (C01-R3a)', "requires": ()},
@@ -63,9 +63,9 @@ INFEASIBLE = [
     {"guard": '^(SymbolicDim\\.__init__|_maybe_convert_to_symbolic_dim): ', "via": 'Value\\.merge_shapes', "why": 'merged dims are taken from existing Shapes, whose elements are int or SymbolicDim', "requires": ()},
     {"guard": '^Value\\.shape\\.setter: always', "via": 'replace_nodes_and_values', "why": "old_value.shape is a Shape or None by the same setter's invariant", "requires": ()},
     {"guard": '^UserList\\.__delitem__@_GraphIO: key of `del self\\.data\\[i\\]` absent', "via": '_GraphIO\\.__delitem__', "why": '__delitem__ reads self.data[i] (IndexError before any write) with the same index first', "requires": ()},
-    {"guard": '^DoublyLinkedSet\\.insert_(after|before): \\(value_id := id\\(value\\)\\) not in self\\._value_ids_to_boxes', "via": '^onnx_ir\\._core:Graph\\.insert_(after|before),', "why": 'the anchor was validated with `node.graph is not self` before any write; a node names a graph iff it is in its list (C01-R3b)', "requires": ('node.graph is not self',)},
+    {"guard": '^DoublyLinkedSet\\.insert_(after|before): \\(\\$\\d+ := id\\(value\\)\\) not in self\\._value_ids_to_boxes', "via": '^onnx_ir\\._core:Graph\\.insert_(after|before),', "why": 'the anchor was validated with `node.graph is not self` before any write; a node names a graph iff it is in its list (C01-R3b)', "requires": ('(node|\\$\\d+)\\.graph is not self',)},
     {"guard": '^Value\\.name\\.setter: ', "via": '^onnx_ir\\._convenience:rename_values,', "why": "initializer values were popped from their graphs before renaming, so the setter's initializer branch is dead", "requires": ()},
-    {"guard": '^(GraphInitializers\\.(__setitem__|_check_item)|GraphInitializers\\.(_set_graph|_check_can_set_graph)): ', "via": '^onnx_ir\\._convenience:rename_values,', "why": 'validated up front: every value is a Value, every initializer name a non-empty str without collision; values are re-added under their own new names to the graph they were popped from', "requires": ("name == ''", 'not isinstance(value, _core.Value)', 'not isinstance(name, str)')},
+    {"guard": '^(GraphInitializers\\.(__setitem__|_check_item)|GraphInitializers\\.(_set_graph|_check_can_set_graph)): ', "via": '^onnx_ir\\._convenience:rename_values,', "why": 'validated up front: every value is a Value, every initializer name a non-empty str without collision; values are re-added under their own new names to the graph they were popped from', "requires": ("(name|\\$\\d+) == ''", 'not isinstance\\((value|\\$\\d+), _core\\.Value\\)', 'not isinstance\\((name|\\$\\d+), str\\)')},
 ]
 
 
@@ -257,7 +257,7 @@ def run(ctx):
             hit = False
             for f in muts:
                 if ent["via"] and re.search(ent["via"], f.key + ","):
-                    hit = hit or any(need in r.cond for r in ef.summary(f).rejs.values() if r.origin == f.key)
+                    hit = hit or any(re.search(need, r.cond) for r in ef.summary(f).rejs.values() if r.origin == f.key)
             ctx.check("R2", f"table entry {i} requires validation `{need}`", hit, ctx.repo.module(CORE), None,
                       f"the validation `{need}` that makes this guard infeasible is gone from the mutator",
                       how="a rejection with that condition exists in the mutator itself", symbol="C06:INFEASIBLE",
